@@ -21,3 +21,26 @@ Theorem C12_id_assignment_invertible_partial :
   exists i, lookup syn eqb m s = Some i /\ back syn m i = Some s.
 Proof. exact syn_ids_roundtrip. Qed.
 Print Assumptions C12_id_assignment_invertible_partial.
+
+(* the byte codec of a thesaurus: the frozen reader (Layout.thesaurus_at, the parser the
+   correspondence run applies to the files zapx writes) recovers, for every left-hand term, exactly
+   the (synonym, document) pairs whose codes are in the term's bitmap, resolved through the id ->
+   term table written next to the FST - for any number of terms, ids and pairs.  The vellum FST and
+   the 64-bit roaring container are Section hypotheses (decode . encode = id). *)
+Require ZV.ThesProof ZV.Layout ZV.LayoutProof ZV.Bytes ZV.Spec.
+Theorem C12_thesaurus_codec_roundtrip :
+  forall (fst_enc : list (Spec.str * N) -> Bytes.bytes) (dec_fst : Bytes.bytes -> option (list (Spec.str * N))),
+  (forall kvs, dec_fst (fst_enc kvs) = Some kvs) ->
+  forall (roar64_enc : list N -> Bytes.bytes) (dec_roar64 : Bytes.bytes -> option (list N)),
+  (forall l, dec_roar64 (roar64_enc l) = Some l) ->
+  forall file loc (kvs : list (Spec.str * N)) tbl (posts : list (list (N * N))) rest,
+  Bytes.u64 (LayoutProof.nlenb (fst_enc kvs)) -> List.Forall ThesProof.wf_synterm tbl ->
+  (N.of_nat (length tbl) < Layout.max_count)%N ->
+  Layout.at_off file loc = Some (ThesProof.enc_thes fst_enc kvs tbl ++ rest) ->
+  List.Forall2 (fun kv ps => List.Forall (ThesProof.wf_pair tbl) ps /\
+                        Bytes.u64 (LayoutProof.nlenb (roar64_enc (List.map ThesProof.code_of ps))) /\
+                        exists rest', Layout.at_off file (snd kv) = Some (ThesProof.enc_posts roar64_enc ps ++ rest')) kvs posts ->
+  Layout.thesaurus_at dec_fst dec_roar64 file loc =
+  Some (List.map (fun x => (fst (fst x), List.fold_right Spec.pins nil (List.map (ThesProof.resolve tbl) (snd x)))) (List.combine kvs posts)).
+Proof. exact ThesProof.thesaurus_roundtrip. Qed.
+Print Assumptions C12_thesaurus_codec_roundtrip.
